@@ -15,7 +15,9 @@ RULE = (
     "cases: (corpus structure or perturbed corpus structure, twin) with twin in {T1 random rotation o translation <= 500 A / one of "
     "the 24 axis permutations, T2 atom order shuffled inside residues, T3 chains renamed by an order-preserving map and residue "
     "numbers shifted per chain (with and without gap detection) or mapped strictly increasingly (without), T4 the same 3-decimal "
-    "atom table supplied as PDB text and as mmCIF text through the real readers}. Both members are pushed through "
+    "atom table supplied as PDB text and as mmCIF text through the real readers}; hostile bases (insertion codes, reversed residue / chain order, negative residue "
+    "numbers) under every twin kind; twins compared after other conformations with the same identifiers (jittered copies, the other models of an NMR ensemble) "
+    "were annotated in the same process. Both members are pushed through "
     "extract_secondary_structure; interaction lists, BPSEQ, dot-bracket and extended dot-bracket are compared after renaming. A pair "
     "is compared only if every decision quantity (contact distance/angles, cis-trans torsion, stacking quantities, BPh torsions) of "
     "BOTH members is >= 1e-6 from its threshold (measured by the dense evaluator). Non-trivial = base annotation has >= 1 "
@@ -76,14 +78,27 @@ def cases(shard, nshards, seed, tier):
         for t, trans in enumerate([[0.0, 0.0, -400.0], [1200.0, -300.0, 0.0], [-350.0, 2000.0, -150.0]] if tier == "thorough" else [[900.0, -350.0, -400.0], [-300.0, 1500.0, -120.0]]):
             if mine():
                 yield {"family": "T4-format-translated", "file": fn, "base_ops": [{"op": "axisperm", "k": 0, "trans": trans}], "twin": {"kind": "T4"}}
+    # NMR ensembles: the other models (same identifiers, other geometry) are annotated first
+    for fn in [f for f in gen3d.corpus_files() if f.endswith(("2HY9.cif", "6RS3.cif"))]:
+        for tw in ({"kind": "T3", "prefix": "a", "mode": "shift", "seed": f"{fn}:ens3", "gaps": False}, {"kind": "T4"},
+                   {"kind": "T1", "ops": [{"op": "rigid", "seed": f"{fn}:ens1", "trans": [10.0, 20.0, -30.0]}]}):
+            if mine():
+                yield {"family": "ensemble-models-first", "file": fn, "base_ops": [], "twin": tw, "pre_models": list(range(10, 1, -1))}
     # hostile identities / orders under every twin kind
-    hostile_bases = [[{"op": "icodes", "seed": "c05h1", "frac": 0.7}], [{"op": "chain-order", "seed": "c05h2", "mode": "reverse"}], [{"op": "reverse-res"}]]
+    hostile_bases = [[{"op": "icodes", "seed": "c05h1", "frac": 0.7}], [{"op": "chain-order", "seed": "c05h2", "mode": "reverse"}], [{"op": "reverse-res"}],
+                     [{"op": "renumber", "first": -9}], [{"op": "renumber", "first": -998}]]
     for fn in [f for f in files if f.endswith(("1ehz-assembly-1.cif", "4WTI_1_T-P.cif", "1A1T_1_B.cif", "4qln.cif", "1E7K_1_C.cif"))]:
         for hb in hostile_bases:
             for tw in ({"kind": "T1", "ops": [{"op": "rigid", "seed": f"{fn}:hb", "trans": [100.0, -200.0, 300.0]}]}, {"kind": "T2", "ops": [{"op": "shuffle-atoms", "seed": f"{fn}:hb2"}]},
                        {"kind": "T3", "prefix": "Q", "mode": "shift", "seed": f"{fn}:hb3", "gaps": True}, {"kind": "T4"}):
                 if mine():
                     yield {"family": "hostile-base-" + hb[0]["op"], "file": fn, "base_ops": hb, "twin": tw}
+        # other conformations carrying the same residue identifiers are annotated first in the same process
+        # (trajectory frames, decoys), then the twins of the unperturbed structure are compared
+        for tw in ({"kind": "T3", "prefix": "Q", "mode": "shift", "seed": f"{fn}:pre3", "gaps": False}, {"kind": "T4"}):
+            if mine():
+                yield {"family": "other-conformations-first", "file": fn, "base_ops": [], "twin": tw,
+                       "pre": [[{"op": "jitter", "seed": f"{seed}:{fn}:pre{k}", "sigma": sg}] for k, sg in enumerate([0.4, 0.8, 1.2])]}
         if tier == "thorough":
             for t in range(3):
                 if mine():
@@ -156,28 +171,49 @@ def _relabel_twin(structure, tw):
     else:
         fn = lambda c, n: n + shift[c]
     keymap = {}
+    # "single": one-character chain names (so that the table still fits PDB), order-preserving
+    single = {c: "klmnopqrstuvwxyz"[k] for k, c in enumerate(sorted(chains))} if tw.get("single") and len(chains) <= 16 else None
+    cn = (lambda c: single[c]) if single else (lambda c: pre + c)
 
     def relabel(ri, r):
         lab = r.label
         auth = r.auth
         c = r.chain
-        nl = ResidueLabel(pre + lab.chain, fn(c, lab.number), lab.name) if lab is not None else None
-        na = ResidueAuth(pre + auth.chain, fn(c, auth.number), auth.icode, auth.name) if auth is not None else None
+        nl = ResidueLabel(cn(lab.chain) if lab.chain in chains else pre + lab.chain, fn(c, lab.number), lab.name) if lab is not None else None
+        na = ResidueAuth(cn(auth.chain) if auth.chain in chains else pre + auth.chain, fn(c, auth.number), auth.icode, auth.name) if auth is not None else None
         old = ((lab.chain, lab.number, lab.name) if lab is not None else None, (auth.chain, auth.number, auth.icode, auth.name) if auth is not None else None)
         new = ((nl.chain, nl.number, nl.name) if nl is not None else None, (na.chain, na.number, na.icode, na.name) if na is not None else None)
         keymap[old] = new
         return nl, na
 
     twin = gen3d.rebuild(structure, relabel=relabel)
-    return twin, keymap, {c: pre + c for c in chains}
+    return twin, keymap, {c: cn(c) for c in chains}
 
 
 def run_case(case, rec):
     tw = case["twin"]
-    base = gen3d.load(case["file"])
+    find_gaps = bool(tw.get("gaps", False))
+    base = gen3d.load(case["file"], 1 if case.get("pre_models") else None)
+    # process history: same identifiers, other geometry, annotated first (results not judged here).
+    # The whole family gets chain names no earlier case of this worker has used, so that what the
+    # process remembers about these identifiers comes from the other conformations, in this order.
+    fresh = None
+    if case.get("pre_models") or case.get("pre"):
+        fresh = {"prefix": "h" + core.chash(case)[:3], "mode": "shift", "seed": "history", "single": tw["kind"] == "T4"}
+        base = _relabel_twin(base, fresh)[0]
+    for m in case.get("pre_models", []):
+        try:
+            # as a single-model file of that conformer would present it: model number 1
+            record(_relabel_twin(gen3d.rebuild(gen3d.load(case["file"], m), model=1), fresh)[0], find_gaps)
+        except Exception:
+            pass
+    for ops in case.get("pre", []):
+        try:
+            record(gen3d.apply_ops(base, ops), find_gaps)
+        except Exception:
+            pass
     if case["base_ops"]:
         base = gen3d.apply_ops(base, case["base_ops"])
-    find_gaps = bool(tw.get("gaps", False))
     keymap = None
     chainmap = None
     if tw["kind"] in ("T1", "T2"):
